@@ -86,6 +86,22 @@ def w_rollback_unmanaged_overwritten(events, line):
     return bool(diff) and all(l in before and l not in managed_before and l not in after for l in diff)
 
 
+def w_rollback_refused_unmanaged(events, line):
+    """the rollback had no effect at all (no cache write, no device call): it was refused by validation, and the
+    transaction had taken over a leaf that held an unmanaged device value before - without a pre-transaction
+    running snapshot the rolled-back configuration lacks that value (same root cause as KF-C05-1)"""
+    e = events[line - 1]
+    if e["ev"] not in ("cancel", "wait") or e["mods"] or any(s["upd"] or s["delraw"] for s in e["sets"]):
+        return False
+    setev, pre = opening_set(events, line)
+    if setev is None or pre is None or setev.get("hasrepl"):
+        return False
+    before = fun(pre["device"])
+    managed_before = {x[2] for x in pre["intended"]}
+    taken = {q[0] for i in setev["intents"] for q in i["upd"]}
+    return any(l in before and l not in managed_before for l in taken)
+
+
 def faulty_step(events, line):
     """the fault-injected TransactionSet of the behaviour the event at `line` belongs to"""
     e = events[line - 1]
@@ -173,6 +189,7 @@ WITNESS = {
     "choice_winner_uninvolved": w_choice_winner_uninvolved,
     "silent_read_failure": w_silent_read_failure,
     "rollback_unmanaged_overwritten": w_rollback_unmanaged_overwritten,
+    "rollback_refused_unmanaged": w_rollback_refused_unmanaged,
 }
 
 
